@@ -1,4 +1,5 @@
 import Pocket.Lemmas.Hll
+import Pocket.Model.JsonParse
 /-
 C20 — HyperLogLog sketches merge like sets and estimate without failing.
 Registers are lists of 256 values; `hllMerge` is `+=`, `hllAdd` is `add_element`,
@@ -209,5 +210,32 @@ theorem zeroCount_new : zeroCount hllNew = 256 := by
 example : (sketch [(3, 5), (200, 9), (3, 2)]).length = 256 ∧
     elemKey (List.replicate 16 0 ++ [7] ++ List.replicate 15 0) 16 = (7, 121) := by
   refine ⟨sketch_length _, by decide⟩
+
+/-- the NIP-45 offset a count filter yields (`Filter::hyperloglog_offset`) is always one that
+`add_element` accepts: between 8 and 23 — whatever byte stands at position 32 of the tag value
+(a byte that is not a hex character, incl. bytes ≥ 0x80, yields no offset instead of a failure) -/
+theorem filter_offset_in_range (f : FilterRec) (n : Nat) (h : hllOffset f = some n) : 8 ≤ n ∧ n ≤ 23 := by
+  unfold hllOffset at h
+  split at h
+  · cases h
+  · dsimp only at h
+    split at h
+    · split at h
+      · cases h
+      · split at h
+        · split at h
+          · cases h
+          · split at h
+            · rename_i v hv
+              simp only [Option.some.injEq] at h
+              subst h
+              unfold hexInv at hv
+              repeat' split at hv
+              all_goals first
+                | (cases hv; done)
+                | (simp only [Option.some.injEq] at hv; omega)
+            · cases h
+        · cases h
+    · cases h
 
 end Pocket.C20
